@@ -1286,19 +1286,11 @@ fn rank_normalise(scn: &CursorScn) -> Option<CursorScn> {
 
 pub fn shrink_candidates(scn: &CursorScn) -> Vec<CursorScn> {
     let mut out = Vec::new();
-    let n = scn.events.len();
     // 1. drop chunks of events (halves, quarters, ... single events)
-    let mut chunk = n / 2;
-    while chunk >= 1 {
-        let mut start = 0;
-        while start < n {
-            let end = (start + chunk).min(n);
-            let mut s = scn.clone();
-            s.events.drain(start..end);
-            out.push(s);
-            start += chunk;
-        }
-        chunk /= 2;
+    for (a, b) in removal_ranges(scn.events.len()) {
+        let mut s = scn.clone();
+        s.events.drain(a..b);
+        out.push(s);
     }
     // 1b. drop / shorten whole-sequence batches
     for i in 0..scn.batches.len() {
@@ -1307,17 +1299,10 @@ pub fn shrink_candidates(scn: &CursorScn) -> Vec<CursorScn> {
         out.push(s);
     }
     for (i, b) in scn.batches.iter().enumerate() {
-        let n = b.xs.len();
-        let mut chunk = n / 2;
-        while chunk >= 1 {
-            let mut start = 0;
-            while start < n {
-                let mut s = scn.clone();
-                s.batches[i].xs.drain(start..(start + chunk).min(n));
-                out.push(s);
-                start += chunk;
-            }
-            chunk /= 2;
+        for (a, z) in removal_ranges(b.xs.len()) {
+            let mut s = scn.clone();
+            s.batches[i].xs.drain(a..z);
+            out.push(s);
         }
         if b.mode != BatchMode::Collect {
             let mut s = scn.clone();
